@@ -3,7 +3,7 @@
 across the crate (word-boundary substitution on a scratch copy); a rename that still compiles is behaviour-preserving, so every rule that fires on it is a
 false alarm of the machinery - i.e. a name the rules rely on. Prints one line per rename and a summary of the names relied upon.
 
-usage: tools/rename_sweep.py [-j N] [--kinds fn,struct,enum,const,field,variant,local] [name-substr ...]
+usage: tools/rename_sweep.py [-j N] [--kinds fn,struct,enum,const,field,variant,local] [--combo K [--ncombos M]] [name-substr ...]
 (development aid; the scratch copies are removed; reports are cached in .cache/selfval like every other corpus)"""
 import sys, os, re, json, glob, hashlib
 VERIF = os.path.dirname(os.path.dirname(os.path.abspath(__file__)))
@@ -69,8 +69,29 @@ def apply_rename(name, new):
     return go
 
 
+def apply_many(pairs):
+    def go(dst):
+        for (name, new) in pairs:
+            err = apply_rename(name, new)(dst)
+            if err:
+                return err
+        return None
+    return go
+
+
 def one(job):
     kind, name, rel = job
+    if kind == "combo":
+        pairs = [(n, new_name(k, n)) for (k, n) in name]
+        label = "+".join(n for _, n in name)
+        content = ("rename combo " + " ".join(f"{a}->{b}" for a, b in pairs)).encode()
+        try:
+            r = selfcheck.cached_report("rename", "combo-" + hashlib.sha1(content).hexdigest()[:10], content, REPO, selfcheck.pool_extract, apply_many(pairs))
+        except Exception as e:
+            return (kind, label, rel, "error", {"_": str(e)[:200]})
+        if r["status"] != "analysed":
+            return (kind, label, rel, r["status"], {})
+        return (kind, label, rel, "ok" if not r["reported"] else "ALARM", r["reported"])
     new = new_name(kind, name)
     content = f"rename {kind} {name} -> {new}".encode()
     try:
@@ -86,17 +107,28 @@ def main():
     args = sys.argv[1:]
     j = 4
     kinds = None
+    combo, ncombos = 0, 40
     subs = []
     i = 0
     while i < len(args):
         if args[i] == "-j":
             j = int(args[i + 1]); i += 2
+        elif args[i] == "--combo":
+            combo = int(args[i + 1]); i += 2
+        elif args[i] == "--ncombos":
+            ncombos = int(args[i + 1]); i += 2
         elif args[i] == "--kinds":
             kinds = set(args[i + 1].split(",")); i += 2
         else:
             subs.append(args[i]); i += 1
     defs = definitions()
     jobs = [(k, n, rel) for (k, n), rel in sorted(defs.items()) if n not in STOP and (kinds is None or k in kinds) and (not subs or any(s in n for s in subs))]
+    if combo:
+        # random sets of `combo` identifiers of the vocabulary kinds renamed together (fixed seed: reproducible)
+        import random
+        rnd = random.Random(20261001)
+        pool_ = [(k, n) for (k, n, rel) in jobs if k in ("struct", "enum", "variant", "field", "const")]
+        jobs = [("combo", tuple(sorted(rnd.sample(pool_, combo))), "") for _ in range(ncombos)]
     print(f"{len(jobs)} renames", flush=True)
     from multiprocessing import Pool
     alarms = {}
